@@ -1,9 +1,11 @@
 """C17, "guaranteed => set" for the formats with a Lean reader (Model/Rd/*): translator part.
 
-`translate(ctx)` writes `lean/Iodata/Gen/ReaderKeys.lean` from the source of the six modelled format modules:
+`translate(ctx)` writes `lean/Iodata/Gen/ReaderKeys.lean` from the source of the modelled format modules:
 
 * `resultKeys`: for every `load_one`, by `ast`: the keys that are in EVERY dictionary the function can return
   (`always`) and the keys that are stored on some paths only (`sometimes`);
+  a `load_one` may take its dictionary from a module-level helper (`result = _load_vasp_grid(lit)`, also one
+  imported by `from .chgcar import ...`): the helper's returns are analysed the same way;
 * `loadManyFrames`: for every `load_many` of these modules, whether every `yield` yields, unmodified, a dictionary
   returned by `load_one(lit, ...)`;
 * `notNoneDefaults`: the `attrs` fields of `IOData` whose default is not `None` (`factory=dict`), by public name.
@@ -19,7 +21,7 @@ import ast
 
 from ..engine import REPO, lean_list
 
-FORMATS = ["xyz", "sdf", "mol2", "pdb", "cube", "gromacs"]
+FORMATS = ["xyz", "sdf", "mol2", "pdb", "cube", "gromacs", "poscar", "chgcar", "locpot"]
 
 
 class ShapeError(ValueError):
@@ -132,12 +134,34 @@ def _forbid_removals(fn, r):
             raise ShapeError(f"augmented / annotated assignment to the returned dictionary {r}")
 
 
+def _resolve_helper(mod: str, name: str):
+    """(module, FunctionDef) of the module-level function `name` visible in formats/<mod>.py: defined there, or
+    imported by `from .<other> import name`"""
+    tree = ast.parse((REPO / "iodata" / "formats" / f"{mod}.py").read_text())
+    fs = [n for n in tree.body if isinstance(n, ast.FunctionDef) and n.name == name]
+    if len(fs) == 1:
+        return mod, fs[0]
+    if len(fs) > 1:
+        raise ShapeError(f"{mod}.{name} is defined more than once")
+    for n in tree.body:
+        if isinstance(n, ast.ImportFrom) and n.level == 1 and n.module and "." not in n.module and any(
+                a.name == name and a.asname is None for a in n.names):
+            return _resolve_helper(n.module, name)
+    raise ShapeError(f"cannot resolve the helper {name} of formats/{mod}.py")
+
+
 def result_keys(fmt: str):
     """(always, sometimes) for iodata/formats/<fmt>.py:load_one"""
+    src = (REPO / "iodata" / "formats" / f"{fmt}.py").read_text()
+    return _fn_keys(fmt, _func(ast.parse(src), "load_one"), 0)
+
+
+def _fn_keys(fmt: str, fn, depth: int):
+    """(always, sometimes) for the dictionaries returned by the function `fn` of formats/<fmt>.py"""
     import importlib
 
-    src = (REPO / "iodata" / "formats" / f"{fmt}.py").read_text()
-    fn = _func(ast.parse(src), "load_one")
+    if depth > 3:
+        raise ShapeError("helper chain too deep")
     rets = [n for n in _walk_no_nested(fn) if isinstance(n, ast.Return)]
     if not rets:
         raise ShapeError("load_one has no return statement")
@@ -149,7 +173,7 @@ def result_keys(fmt: str):
             somes.append(set())
             continue
         if not isinstance(v, ast.Name):
-            raise ShapeError("load_one returns neither a dict display nor a local name")
+            raise ShapeError(f"{fn.name} returns neither a dict display nor a local name")
         r = v.id
         _forbid_removals(fn, r)
         binds = []
@@ -168,10 +192,21 @@ def result_keys(fmt: str):
                     if isinstance(m, ast.Name) and m.id == r and isinstance(m.ctx, ast.Store):
                         binds.append(n)
         if len(binds) != 1 or not isinstance(binds[0], ast.Assign) or len(binds[0].targets) != 1 or not isinstance(
-                binds[0].targets[0], ast.Name) or not isinstance(binds[0].value, ast.Dict):
-            raise ShapeError(f"the returned name {r} is not bound by exactly one `{r} = {{...}}` statement")
+                binds[0].targets[0], ast.Name):
+            raise ShapeError(f"the returned name {r} is not bound by exactly one `{r} = ...` statement")
         bind = binds[0]
-        always = set(("const", k) for k in _dict_keys(bind.value))
+        helper_some = set()
+        if isinstance(bind.value, ast.Dict):
+            always = set(("const", k) for k in _dict_keys(bind.value))
+        elif (isinstance(bind.value, ast.Call) and isinstance(bind.value.func, ast.Name) and not bind.value.keywords
+              and len(bind.value.args) == 1 and isinstance(bind.value.args[0], ast.Name)
+              and bind.value.args[0].id == "lit"):
+            # `result = _helper(lit)`: the dictionary of a module-level helper
+            ha, hs = _fn_keys(*_resolve_helper(fmt, bind.value.func.id), depth + 1)
+            always = set(("const", k) for k in ha)
+            helper_some = set(hs)
+        else:
+            raise ShapeError(f"the returned name {r} is bound neither to a dict display nor to `helper(lit)`")
         may = _may(fn, r)
         if bind in fn.body:
             # stores that every path through the statements AFTER the binding performs
@@ -202,7 +237,7 @@ def result_keys(fmt: str):
         if any(k[0] == "var" for k in always | may):
             raise ShapeError(f"store into {r}[name] with a key the translator cannot resolve")
         alws.append({k[1] for k in always})
-        somes.append({k[1] for k in may} - {k[1] for k in always})
+        somes.append(({k[1] for k in may} | helper_some) - {k[1] for k in always})
     always = set.intersection(*alws)
     sometimes = set.union(*alws, *somes) - always
     return sorted(always), sorted(sometimes)
